@@ -11,11 +11,11 @@ type OutputsResult struct {
 }
 
 type selector struct {
-	outs      []any
-	selAbove  int
-	nested    bool
-	err       string
-	unspec    string
+	outs     []any
+	selAbove int
+	nested   bool
+	err      string
+	unspec   string
 }
 
 func isMarker(v any, val bool) (marker bool, extra bool) {
